@@ -24,6 +24,8 @@ IsPermOf(a, b) == Len(a) = Len(b) /\ SeqSet(a) = SeqSet(b)
 Ev == Trace[l]
 Post == Ev.tensors
 Frame(S) == \A n \in Names \ S : Post[n] = T[n]
+NextRank(t) == IF t.iter_ptr < Len(t.ranks) THEN t.ranks[t.iter_ptr + 1] ELSE ""
+MustIterate == {n \in SeqSet(Ev.used) \cap Names : NextRank(T[n]) = Ev.node.rank}
 Clause ==
   IF Ev.tmp < tmp THEN "temporary counter decreased"
   ELSE CASE Ev.ev = "PreBegin" ->
@@ -36,7 +38,12 @@ Clause ==
     [] Ev.ev = "LoopEnter" ->
          (IF ~Frame(SeqSet(Ev.popped)) THEN "Loop: a tensor not co-iterated changed"
           ELSE IF \E n \in SeqSet(Ev.popped) : Post[n] # [T[n] EXCEPT !.iter_ptr = @ + 1] THEN "Loop: co-iterated tensor did not advance by exactly one rank"
-          ELSE IF Ev.popped = <<>> THEN "Loop: nothing is iterated" ELSE "ok")
+          ELSE IF Ev.popped = <<>> THEN "Loop: nothing is iterated"
+          \* prediction of the co-iteration set (generative part): exactly the tensors of this Einsum whose next rank is the loop rank
+          \* are co-iterated; with index arithmetic a tensor may also be iterated through a projected rank, so only "at least"
+          ELSE IF ~(MustIterate \subseteq SeqSet(Ev.popped)) THEN "Loop: a tensor whose next rank is the loop rank is not co-iterated"
+          ELSE IF ~Ev.imath /\ \E n \in SeqSet(Ev.popped) : NextRank(T[n]) # Ev.node.rank THEN "Loop: a co-iterated tensor's next rank is not the loop rank"
+          ELSE "ok")
     [] Ev.ev = "Node" /\ Ev.node.kind = "SwizzleNode" ->
          (LET t == Ev.node.tensor IN
           IF ~Frame({t}) THEN "Swizzle: another tensor changed"
